@@ -22,6 +22,16 @@ T = {
  "C18-a": ("C18", "match_qtype counts MINFO in the MAILB group", "a MINFO record against a MAILB question", ["C18"]),
  "C19-a": ("C19", "String::try_from(TXT) decodes each character-string as UTF-8 separately", "text longer than 254 bytes with a multi-byte character straddling a multiple of 254", ["C19"]),
  "C20-a": ("C20", "add_cached_resource keeps the later of the old and new expiry", "a cached record received again with a shorter TTL / cache-flush, then queried after the shorter TTL; first runs MISSED it, expiry histories now work on a 4-record catalogue and prefer re-receiving and querying already cached records", ["C20"]),
+ "C02-b": ("C02", "SVCB::parse returns right after the target when priority is 0 (AliasMode), dropping the SvcParams", "an SVCB/HTTPS record with priority 0 and at least one parameter", ["C02"]),
+ "C04-b": ("C04", "ISDN::write_to skips an empty subaddress while len() still counts it", "an ISDN record with an empty sa written through a plain entry point: RDLENGTH one larger than the RDATA", ["C04"]),
+ "C05-b": ("C05", "parse_section iterates over the count clamped to the remaining bytes", "a section with non-zero count that starts exactly at the end of the message: accepted with fewer entries", ["C05"]),
+ "C07-b": ("C07", "IPSECKEY gets a write_compressed_to that compresses a domain-name gateway", "IPSECKEY with gateway type 3 whose name suffix was written earlier, compressed output", ["C07"]),
+ "C10-b": ("C10", "ZONEMD scheme and hash-algorithm bytes swapped in both parse and write_to (self-consistent)", "a ZONEMD record whose scheme differs from its algorithm compared with an independent encoding", ["C10"]),
+ "C11-b": ("C11", "Packet::parse lifts the LAST OPT record (rposition) while the writer emits the header OPT first", "a message with two different OPT records in the additional section; first run MISSED it, Gen_Edns now also generates two-OPT messages", ["C11"]),
+ "C13-b": ("C13", "Hash for ResourceRecord includes the cache-flush bit while PartialEq ignores it", "the same record registered / removed / received with different cache-flush bits: stale or duplicate store entries; first run MISSED it, Gen_Store now varies the cache-flush bit and TTL on registrations and removals and removes mostly registered records", ["C13"]),
+ "C15-b": ("C15", "add_response_to_resources applies the subdomain filter to the answer section only", "a genuine peer's packet whose ADDITIONAL section holds records of foreign names, with an on_discovery channel; first run MISSED it, announcement kind 'instance+foreign' added", ["C15"]),
+ "C16-b": ("C16", "ResourceRecord::into_owned rebuilds the record with new(), losing cache_flush", "into_owned of a record with the cache-flush bit set (== ignores the bit; projection and bytes differ)", ["C16"]),
+ "C20-b": ("C20", "remove_resource_record drops the whole node when the domain holds exactly one record", "removing a record that is not in the store from a name holding exactly one other record", ["C20"]),
 }
 for name, (prop, change, needs, caught) in T.items():
     d = f"/verif/seeded/{name}"
